@@ -80,9 +80,15 @@ Aliases == <<"PC", "LR", "SA0", "LC0", "SA1", "LC1", "FP", "FRAMEKEY", "SP", "GP
 AliasProgs ==
     Flatten([i \in 1..Len(Aliases) |->
         LET a == Aliases[i] IN
-        << P("al-rd-" \o a, Obs(Alias(a, FALSE)), <<"alias", "read">>) >>
+        << P("al-rd-" \o a, Obs(Alias(a, FALSE)), <<"alias", "read">>),
+           \* the alias inside arithmetic and a comparison: the operators around it must know its width and signedness
+           \* (a plain copy into a 64-bit local does not show a wrongly typed 64-bit alias)
+           P("al-arith-" \o a, Obs(Bin("+", Alias(a, FALSE), NumN(1))), <<"alias", "arith">>),
+           P("al-cmp-" \o a, Obs(Bin("<", Alias(a, FALSE), Rss)), <<"alias", "arith">>) >>
         \o (IF a = "PC" THEN <<>> ELSE     \* the program counter alias is read-only (a write emits an undeclared pc_op: noted finding)
             << P("al-rdnew-" \o a, Obs(Alias(a, TRUE)), <<"alias", "readnew">>),
+               P("al-arithnew-" \o a, Obs(Bin("+", Alias(a, TRUE), NumN(1))), <<"alias", "arithnew">>),
+               P("al-cmpnew-" \o a, Obs(Bin("<", Alias(a, TRUE), Rss)), <<"alias", "arithnew">>),
                P("al-wr-" \o a, << Set(Alias(a, FALSE), Src64) >>, <<"alias", "write">>),
                P("al-rmw-" \o a, << Set(Alias(a, FALSE), Bin("+", Alias(a, FALSE), NumN(1))) >>, <<"alias", "rmw">>) >>)])
 
